@@ -543,6 +543,12 @@ func (se *symExec) execStmt(s ast.Stmt, st *sstate) (fall []*sstate, rets []path
 				return []*sstate{st}, nil
 			}
 		}
+		if se.emitMode {
+			// decision tables: a deferred call is an effect of the path (it runs at every exit after this point)
+			st.seq++
+			st.calls = append(st.calls, callRec{callee: "defer", args: []val{unk(strings.Join(strings.Fields(fullExpr(x.Call)), " "))}, pos: s.Pos(), seq: st.seq})
+			return []*sstate{st}, nil
+		}
 		st.undecided(s.Pos(), "defer statement not handled by the interpreter")
 		return []*sstate{st}, nil
 	case *ast.GoStmt, *ast.LabeledStmt, *ast.SelectStmt, *ast.SendStmt:
